@@ -428,3 +428,102 @@ Proof.
     destruct C2 as (_ & _ & _ & _ & C3 & _). destruct (C3 _ _ Fx2 Ax) as [Hv _]. unfold is_failed in Hv. rewrite Px2 in Hv. rewrite orb_true_r in Hv. discriminate. }
   rewrite Hyfb, Hfp2, Hfc2. reflexivity.
 Qed.
+
+Lemma ginv_apply_range : forall base s a b s' ok, ginv base s -> apply pstate ccmd cexec cunexec s a b = Ok (s', ok) -> ginv base s'.
+Proof. intros base s a b s' ok. apply (Inv_apply_range pstate ccmd cexec cunexec (ginv base) (ginv_apply base) (ginv_unapply base)). Qed.
+
+(** C02 / C20: setState never hits an assert. From every reachable state, for every known target (valid, failing at any
+    position, already invalid, ahead, behind, on a fork), setState returns - true or false - and never Abort. *)
+Theorem setState_total : forall base s to bto,
+    reachable base s -> bfind (blocks _ _ s) to = Some bto -> exists s' ok, c_setState s to = Ok (s', ok).
+Proof.
+  intros base s to bto R Fto. destruct (reachable_good _ _ R) as (Q & C & K & T & U).
+  pose proof Q as (W & Ta & Hn). assert (G : ginv base s) by (split; [split; assumption|split; assumption]).
+  destruct (is_act_find _ _ Ta) as (bt & Ft & At). pose proof (find_cfind _ _ _ Ft) as Ct. pose proof (find_cfind _ _ _ Fto) as Cto.
+  unfold c_setState, setState. rewrite Ft, Fto.
+  assert (Hchk : negb (Z.eqb (b_h ccmd bt + 1) (root_h pstate ccmd s + Z.of_N (napp pstate ccmd s))) = false).
+  { apply negb_false_iff. apply Z.eqb_eq. rewrite root_h_hgt. assert (hgt (cores s) (tip _ _ s) = b_h ccmd bt) by (unfold hgt; rewrite Ct; reflexivity). lia. }
+  rewrite Hchk.
+  destruct (N.eqb (tip pstate ccmd s) to) eqn:Ett.
+  { cbn [bind]. rewrite Fto. apply N.eqb_eq in Ett. subst to. rewrite Ft in Fto. inversion Fto; subst bto.
+    assert (Hv : valid_upto ccmd bt L_FULL = true).
+    { destruct T as (b2 & F2 & Hl). rewrite Ft in F2. inversion F2; subst b2. destruct K as (_ & _ & _ & _ & C3 & _). destruct (C3 _ _ Ft At) as [Hv _].
+      unfold valid_upto. rewrite Hv. cbn. apply N.leb_le. exact Hl. }
+    rewrite Hv. eexists. eexists. reflexivity. }
+  pose proof (dep_bound s _ _ W K Ct) as Db1. pose proof (dep_bound s _ _ W K Cto) as Db2.
+  destruct (dep_facts s _ _ W K Ct) as (D1 & _ & Hmin1). destruct (dep_facts s _ _ W K Cto) as (D2 & _ & Hmin2).
+  destruct (lca_spec s W K (2 * fuel_of pstate ccmd s) (tip _ _ s) to _ _ Ct Cto) as (fork & ka & kb & Hl & Hf1 & Hf2 & Ka & Kb & Hmax).
+  { unfold fuel_of. lia. }
+  unfold sm_setState. rewrite Ett, Hl.
+  destruct (unapply_total ka s (tip _ _ s) (fuel_of pstate ccmd s) Q K Ka) as (s1 & E1 & A1 & F1).
+  { unfold fuel_of. lia. }
+  rewrite <- Hf1 in E1, A1.
+  assert (Eu : unapply pstate ccmd cunexec s (tip pstate ccmd s) fork = Ok s1) by (unfold unapply; rewrite E1; cbn; rewrite N.eqb_refl; reflexivity).
+  rewrite Eu. cbn [bind].
+  pose proof (ginv_unapply_range _ _ _ _ _ G Eu) as G1. pose proof (md_unapply_range _ _ _ _ Eu) as M1.
+  pose proof (fr_static _ _ F1) as S1. pose proof (frame_static_blocks _ _ _ M1) as HS1.
+  assert (Cto1 : exists e1, cfind (cores s1) to = Some e1).
+  { destruct (static_find _ _ to bto HS1 Fto) as (b1 & Fb1). exists (core b1). apply find_cfind. exact Fb1. }
+  destruct Cto1 as (e1 & Cto1).
+  assert (Hdep1 : forall j, dep s1 j = dep s j) by (intro j; unfold dep; rewrite (fr_root _ _ F1), !(hgt_static _ _ _ S1); reflexivity).
+  (* apply the target branch: it may fail, it never aborts *)
+  destruct (apply_gen base s1 fork to kb e1 A1 G1 Cto1) as (s2 & ok2 & E2 & G2 & F2 & Ht2 & Hf2').
+  { rewrite (up_static _ _ kb to S1). exact Hf2. }
+  { rewrite Hdep1. exact Kb. }
+  { intros i Hi. rewrite (up_static _ _ i to S1). rewrite (oac_static s s1 _ HS1 (fr_tip _ _ F1)).
+    destruct (up_hgt_dep s to _ i W K Cto ltac:(lia)) as (Hhi & (ei & Hei)). destruct (core_find _ _ _ Hei) as (bi & Fbi & Cbi).
+    unfold on_active_chain. rewrite Fbi.
+    assert (Hbh : b_h ccmd bi = hgt (cores s) (up (cores s) i to)) by (unfold hgt; rewrite Hei, <- Cbi; reflexivity).
+    rewrite Hbh.
+    destruct (anc_at ccmd (blocks pstate ccmd s) (fuel_of pstate ccmd s) (tip pstate ccmd s) (hgt (cores s) (up (cores s) i to))) as [a|] eqn:Ea; [|reflexivity].
+    apply N.eqb_neq. intro Heq. subst a.
+    exact (above_fork_not_active_chain s (tip _ _ s) to fork ka kb i W K (ex_intro _ _ Ct) (ex_intro _ _ Cto) Hf1 Hf2 Ka Kb Hmax Hi _ Ea). }
+  rewrite E2. cbn [bind].
+  pose proof (fr_static _ _ F2) as S2.
+  assert (F12 : frame s s2) by (eapply frame_trans; eassumption).
+  pose proof (fr_static _ _ F12) as S12.
+  pose proof G2 as ((W2 & K2) & _ & _).
+  destruct (md_apply_range _ _ _ _ _ (proj1 G1) E2) as [M2 _].
+  assert (M12 : md (branch s to) s s2).
+  { eapply md_trans; [eapply md_weaken; [|exact M1]; intros j []|]. eapply md_weaken; [|exact M2]. intros j Hj. exact (branch_static s s1 to j S1 Hj). }
+  destruct (static_find _ _ to bto (proj1 M12) Fto) as (b2 & Fb2).
+  destruct ok2.
+  - (* switched *)
+    cbn [bind]. rewrite Fb2. specialize (Ht2 eq_refl).
+    assert (Lto : lvl_ge L_FULL to s2).
+    { eapply (apply_full s1 fork to s2 (proj1 G1)); [exact (proj1 (proj2 (proj1 (alone_unfold _ _) A1)))| | |exact E2].
+      - rewrite Hf1. eapply lvl_ge_unapply_range; [|exact Eu]. apply chain_lvl; assumption.
+      - exact (proj2 (proj2 (proj1 (alone_unfold _ _) A1))). }
+    destruct Lto as (b2' & Fb2' & Hl2). rewrite Fb2 in Fb2'. inversion Fb2'; subst b2'.
+    pose proof (proj1 (alone_unfold _ _) Ht2) as (_ & Tact & _). destruct (is_act_find _ _ Tact) as (b3 & Fb3 & Ab3). rewrite Fb2 in Fb3. inversion Fb3; subst b3.
+    destruct K2 as (_ & _ & _ & _ & C3 & _). destruct (C3 _ _ Fb2 Ab3) as [Hv _].
+    assert (Hv2 : valid_upto ccmd b2 L_FULL = true) by (unfold valid_upto; rewrite Hv; cbn; apply N.leb_le; exact Hl2).
+    rewrite Hv2. eexists. eexists. reflexivity.
+  - (* the target failed: roll back to the old chain, which is fully valid and untouched *)
+    cbn [bind]. destruct (Hf2' eq_refl) as (A2 & (bf & Fbf & Hbf)). rewrite Fb2 in Fbf. inversion Fbf; subst bf.
+    assert (Ct2 : exists e2, cfind (cores s2) (tip _ _ s) = Some e2).
+    { destruct (static_find _ _ _ bt (proj1 M12) Ft) as (bt2 & Fbt2). exists (core bt2). apply find_cfind. exact Fbt2. }
+    destruct Ct2 as (e2 & Ct2).
+    assert (Hdep2 : forall j, dep s2 j = dep s j) by (intro j; unfold dep; rewrite (fr_root _ _ F12), !(hgt_static _ _ _ S12); reflexivity).
+    destruct (apply_alone_total base s2 fork (tip _ _ s) ka e2 A2 G2 K2 Ct2) as (s3 & E3 & A3 & G3 & F3 & M3).
+    { rewrite (up_static _ _ ka _ S12). exact Hf1. }
+    { rewrite Hdep2. exact Ka. }
+    { intros i Hi. rewrite (up_static _ _ i _ S12).
+      eapply (old_chain_ok s s2 (tip _ _ s) to fork ka kb W K W2 K2 A2 (ex_intro _ _ Ct) (ex_intro _ _ Cto) Hf1 Hf2 Ka Kb Hmax M12 (fr_root _ _ F12) i Hi).
+      split; [apply Hmin1; lia|]. destruct (chain_lvl s Q K T i) as (bi & Fbi & Hli).
+      exists bi. split; [exact Fbi|]. split; [exact Hli|].
+      pose proof (chain_up_active s Q i) as Hai. destruct (is_act_find _ _ Hai) as (bi2 & Fbi2 & Abi). rewrite Fbi in Fbi2. inversion Fbi2; subst bi2.
+      destruct K as (_ & _ & _ & _ & C3 & _). exact (proj1 (C3 _ _ Fbi Abi)). }
+    rewrite E3. cbn [bind].
+    destruct (static_find _ _ to b2 (proj1 M3) Fb2) as (b3 & Fb3). rewrite Fb3.
+    destruct (md_nobody_failed _ _ _ _ _ M3 Fb2 Fb3) as [Hf3 _]. rewrite Hf3, Hbf. cbn [negb].
+    (* the counter equals the length of the restored chain *)
+    pose proof (proj1 (alone_unfold _ _) A3) as (W3 & Ta3 & Hn3).
+    assert (F13 : frame s s3) by (eapply frame_trans; eassumption).
+    assert (Hcnt : N.eqb (napp pstate ccmd s3) (chain_count pstate ccmd s3 (tip pstate ccmd s3)) = true).
+    { apply N.eqb_eq. rewrite (fr_tip _ _ F13). unfold chain_count.
+      destruct (is_act_find _ _ Ta3) as (bt3 & Fbt3 & _). rewrite Fbt3. rewrite root_h_hgt.
+      assert (hgt (cores s3) (tip pstate ccmd s) = b_h ccmd bt3) by (unfold hgt; rewrite (find_cfind _ _ _ Fbt3); reflexivity).
+      apply N2Z.inj. rewrite Z2N.id by lia. lia. }
+    rewrite Hcnt. cbn [negb]. eexists. eexists. reflexivity.
+Qed.
